@@ -57,6 +57,15 @@ TBL_ENTRY_RE = re.compile(r'\s*\{\s*"([^"]+)"\s*\,\s*"((?:[^"]|\\")*)"\s*'
 TBL_END_RE = re.compile(r'\s*\{\s*""\s*\,\s*"The End".*\s*')
 
 
+def is_reported_error_pte(pte: int) -> bool:
+    """
+    Returns whether the specified PTE is a reported error.
+    """
+
+    return (((pte & ERROR_MASK) == ERROR_VALUE) and
+            ((pte & REPORTED_MASK) == REPORTED_VALUE))
+
+
 class PTETableEntry:
     """
     Represents one entry in the PTE table from the C++ header file.
@@ -147,8 +156,7 @@ class PTETableEntry:
         Returns whether the specified PTE is a reported error.
         """
 
-        return (((pte & ERROR_MASK) == ERROR_VALUE) and
-                ((pte & REPORTED_MASK) == REPORTED_VALUE))
+        return is_reported_error_pte(pte)
 
 
 class PTETable:
@@ -265,6 +273,9 @@ def parse_ilog_data(data: memoryview, header_file_path: str) -> list:
         entry = table.get_entry(pte)
         if entry is not None:
             message = entry.get_message(pte)
+        elif is_reported_error_pte(pte):
+            # A reported error is marked as such even without a description
+            message += ' - PEL entry created'
 
         # Add output line for ilog entry
         lines.append(f'{timestamp_str} {seq_num:04X} {pte:08X} {message}')
